@@ -24,7 +24,6 @@ def Quirks.current : Quirks :=
     inplaceKeepsVersion := true,    -- D27 / D28
     rawLookupSeesExpired := true,   -- D22
     flushDetaches := true,          -- D42
-    dirtyIncomplete := true,        -- D47
     lcsRunes := true }              -- D68
 
 def words (s : String) : List String := (s.splitOn " ").filter (· ≠ "")
@@ -427,6 +426,11 @@ def step (d : DState) (line : String) : DState × String :=
         | .invalid => "invalid"
         | .crash site => "crash " ++ site)
     | none => (d, "bad-op")
+  | ["V"] =>
+    -- `dataStoreSet.save`: every database of the table is written when dirty, then marked clean
+    let refs := d.st.table.map (·.2)
+    let st' := { d.st with heap := d.st.heap.map fun (r, db) => if refs.contains r then (r, { db with dirty := false }) else (r, db) }
+    ({ d with st := st' }, "ok")
   | ["DN"] => ({ d with dict := Dict.empty }, "ok")
   | ["DS", hex] =>
     match fromHex hex with
